@@ -636,7 +636,9 @@ func init() {
 			"their load form text in a fresh process) : 2 sessions (5-25 defvar/defparameter/defconstant/defun/defmacro/defflavor(+instance)/defgeneric+" +
 			"defmethod/defpackage/setq-of-a-standard-variable items -> snapshot -> fresh process -> load -> snapshot -> probes), each at margins drawn from " +
 			"20..120; distinct = distinct case JSON; non-trivial = slip accepted the original definition. Flavors come in inheritance chains of up to " +
-			"three levels whose children re-declare inherited variables with an ancestor's or a new default. About one case in six carries exactly one " +
+			"three levels whose children re-declare inherited variables with an ancestor's or a new default. Functions, macros, variables, flavors, " +
+			"classes and generic methods are redefined 0-2 times (other lambda list, documentation, body, variable set) before their load form or the " +
+			"snapshot is taken: what is saved has to be the last definition. About one case in six carries exactly one " +
 			"avoid-set construct (feat=...; counters dirty:<construct>), all others avoid all of them: plain symbols as data, empty vectors, fill " +
 			"pointers and array attributes in snapshots, long floats with inexact decimal digits, backquote templates, documentation that wraps " +
 			"(sessions), slot accessors in class load forms, quoted flavor defaults, parents with variables lacking accessors, proper inittable subsets " +
